@@ -19,7 +19,7 @@ from . import scn_c08
 
 ID = "C10"
 ENGINE = "P"
-RUNS = {"quick": 96, "thorough": 3000}
+RUNS = {"quick": 240, "thorough": 4000}
 BATCH_WALL_CAP = {"quick": 2400, "thorough": 8 * 3600}
 RUN_WALL_CAP = 900
 RECHECK = {"quick": 3, "thorough": 30}
